@@ -47,8 +47,13 @@ impl Scenario for Lifecycle {
     fn rule(&self) -> String {
         "seeded lifecycle runs (archive × codec × sync/async writer and reader × transfer/pending policies); distinct = distinct serialized cases; non-trivial = at least one tile and a non-plain schedule on writer or reader disk".into()
     }
-    fn generate(&self, rng: &mut Rng, _tier: Tier, run: u64) -> Value {
-        let size = if run == 0 && (self.prop == "C02" || self.prop == "C06") {
+    fn generate(&self, rng: &mut Rng, tier: Tier, run: u64) -> Value {
+        let titanic = self.prop == "C02" && (run == 1 || (run == 2 && tier == Tier::Thorough));
+        let size = if titanic {
+            // one archive per batch (async writer; thorough: one more through the sync writer)
+            // whose first pointer root is over the budget, so the leaf size has to grow
+            SizeClass::Titanic
+        } else if run == 0 && (self.prop == "C02" || self.prop == "C06") {
             // exactly one archive per batch that is large enough for the leaf-size loop to matter
             SizeClass::Colossal
         } else if rng.chance(self.window_pct) {
@@ -62,11 +67,15 @@ impl Scenario for Lifecycle {
         } else {
             draw_size(rng, self.huge_pct)
         };
-        let ic = if size == SizeClass::Colossal { 1 } else if size == SizeClass::Gigantic { *rng.pick(&[1u8, 2, 4]) } else if size == SizeClass::ManyRegular { *rng.pick(&[2u8, 4, 2, 4, 1]) } else { draw_ic(rng, size == SizeClass::Huge || size == SizeClass::Window) };
+        let ic = if size == SizeClass::Colossal || size == SizeClass::Titanic { 1 } else if size == SizeClass::Gigantic { *rng.pick(&[1u8, 2, 4]) } else if size == SizeClass::ManyRegular { *rng.pick(&[2u8, 4, 2, 4, 1]) } else { draw_ic(rng, size == SizeClass::Huge || size == SizeClass::Window) };
         let a = draw_archive(rng, size, ic);
-        let wface = Face::draw(rng);
+        let mut wface = Face::draw(rng);
         let rface = Face::draw(rng);
-        let sched = if rng.chance(90) { Sched::draw(rng, wface, rface) } else { Sched::plain() };
+        let mut sched = if rng.chance(90) { Sched::draw(rng, wface, rface) } else { Sched::plain() };
+        if titanic {
+            wface = if run == 1 { Face::Async } else { Face::Sync };
+            sched = Sched::plain();
+        }
         to_value(&LifeCase { a, wface, rface, sched, scramble: rng.next_u64() })
     }
     fn execute(&self, case: &Value, ctx: &mut Ctx) -> V<()> {
